@@ -201,6 +201,7 @@ class Context:
         """
         invalidated_identifiers: NameList = []
         failed_processes: Set[ProcessStatus] = set()
+        stopping_processes: Set[ProcessStatus] = set()
         for status in self.instances.values():
             if status.state == SupvisorsInstanceStates.FAILED:
                 # invalid silent Supvisors instances
@@ -213,8 +214,14 @@ class Context:
                 #       and their related description.
                 failed_processes.update({process for process in status.running_processes()
                                          if process.invalidate_identifier(status.identifier)})
+                # a process that was STOPPING on the lost Supvisors instance is not running there anymore either
+                # NOTE: it is not a running failure (its stop was requested), so it is not returned as such
+                for process in status.processes.values():
+                    if status.identifier in process.running_identifiers:
+                        process.invalidate_identifier(status.identifier)
+                        stopping_processes.add(process)
         # trigger the corresponding Supvisors events
-        self.publish_process_failures(failed_processes)
+        self.publish_process_failures(failed_processes | stopping_processes)
         #  return the identifiers of all invalidated Supvisors instances and the processes declared in failure
         return invalidated_identifiers, failed_processes
 
